@@ -2,6 +2,8 @@ package harness
 
 import (
 	"bufio"
+	"crypto/sha256"
+	"encoding/hex"
 	"encoding/json"
 	"fmt"
 	"os"
@@ -182,12 +184,23 @@ func execute(seed int64, scenario string, o ExecOpts) (res *Result) {
 	simrt.SetMode(simrt.ModeOff)
 	simrt.SimSeed, simrt.SimRand = 0, 0
 
+	// C27 is checked on every run of every scenario; a run is non-trivial for it when it went
+	// through a failure, deadline, corruption or missing-filter path (where the engine logs).
+	if len(r.FaultCt) > 0 || r.Probes["life.stop-deadline-error"] > 0 || r.Probes["content.external-file"] > 0 ||
+		r.Probes["corrupt.query-error"] > 0 || r.Probes["corrupt.merge-failed"] > 0 || r.Probes["corrupt.metadata-rejected"] > 0 {
+		r.NonTriv["C27"] = true
+	}
 	if out := stdioNew(); out != "" {
 		res.Stdio = out
 		r.Violate("C27", "wrote-to-stdio", "the engine (Logger nil) wrote to stdout/stderr during this run: %q", out)
 	}
 	res.Digest = r.Digest()
-	res.SchedDigest = r.SchedDigest()
+	// Distinctness measure: the generated workload together with the scheduler's decisions.
+	wh := sha256.New()
+	for _, v := range w.Used() {
+		wh.Write([]byte{byte(v), byte(v >> 8), byte(v >> 16), byte(v >> 24)})
+	}
+	res.SchedDigest = hex.EncodeToString(wh.Sum(nil))[:12] + ":" + r.SchedDigest()
 	res.Steps = r.Step
 	res.SimMs = r.SimMillis()
 	res.Faults = r.FaultCt
